@@ -498,7 +498,7 @@ def get_trace(build, q, gb, prop, timeout, mem_gb):
 
 
 NATIVE_CFLAGS = ["-std=gnu99", "-g", "-O0", "-fno-omit-frame-pointer", "-fsanitize=address,undefined",
-                 "-fno-sanitize-recover=undefined", "-w", "-DREPLAY", "-D_GNU_SOURCE"]
+                 "-fno-sanitize-recover=undefined", "-fno-sanitize=nonnull-attribute,returns-nonnull-attribute", "-w", "-DREPLAY", "-D_GNU_SOURCE"]
 
 
 def native_build(build, q, outdir):
@@ -535,6 +535,11 @@ def native_build(build, q, outdir):
         if r.returncode != 0:
             raise FrameworkError("native compile of %s failed: %s" % (src, r.stderr[-3000:]))
         objs.append(o)
+    fo = os.path.join(outdir, "fallback.o")
+    r = subprocess.run(["gcc"] + [f for f in NATIVE_CFLAGS if f != "-DREPLAY"] + ["-c", os.path.join(MODELS, "vnative_fallback.c"), "-o", fo], capture_output=True, text=True)
+    if r.returncode != 0:
+        raise FrameworkError("native compile of fallback failed: " + r.stderr[-2000:])
+    objs.append(fo)
     exe = os.path.join(outdir, "replay.bin")
     r = subprocess.run(["gcc"] + NATIVE_CFLAGS + objs + ["-o", exe, "-lpthread", "-ldl"], capture_output=True, text=True)
     if r.returncode != 0:
